@@ -68,7 +68,8 @@ pub struct FaultPlan {
     #[serde(default, skip_serializing_if = "Option::is_none")]
     pub delay: Option<(u64, u32)>,
     /// Crash before the first operation with this verb whose path starts with this prefix
-    /// (used by generators that cannot know operation indexes in advance).
+    /// (or, if the pattern starts with '*', contains the rest of it). Used by generators
+    /// that cannot know operation indexes in advance.
     #[serde(default, skip_serializing_if = "Option::is_none")]
     pub crash_on: Option<(String, String)>,
 }
@@ -552,7 +553,12 @@ impl Backend for Interceptor {
         let (mut fault, delayed) = self.decide(idx);
         if fault.is_none() {
             if let Some((verb, prefix)) = &self.plan.crash_on {
-                if store::op_verb(&op) == verb && store::op_path(&op).starts_with(prefix.as_str()) {
+                let path = store::op_path(&op);
+                let hit = match prefix.strip_prefix('*') {
+                    Some(needle) => path.contains(needle),
+                    None => path.starts_with(prefix.as_str()),
+                };
+                if store::op_verb(&op) == verb && hit {
                     fault = Some(Fault::CrashBefore);
                 }
             }
